@@ -961,6 +961,7 @@ fn round_trip(ctx: &mut Ctx, kind: &str, index: u64, case: &RoundTripCase<'_>) -
     let mut dec_plan_used: Option<Vec<PieceStep>> = None;
     let mut sig_bits = (0u64, 0u64, 0u64);
     let mut soft: Soft = Vec::new();
+    let mut partial_decodes = 0u64;
     let res = catch(|| -> Result<(usize, usize), Fail> {
         let enc_out = run_encode(params, input, &case.enc_plan, &owned, case.heavy, &mut soft)?;
         let e = &enc_out.total;
@@ -1035,6 +1036,31 @@ fn round_trip(ctx: &mut Ctx, kind: &str, index: u64, case: &RoundTripCase<'_>) -
             }
         }
         sig_bits.2 = pb;
+        // C09, decoder side: abandon a decoder part-way (Decoder::take_iovec
+        // instead of finish): what was drained plus what it still holds must
+        // be a prefix of the message.
+        if params == Params::Prod && case.dec_seed % 3 == 0 {
+            if let Some(dplan) = dec_plan_used.as_ref().filter(|p| p.len() > 1) {
+                let k = 1 + (case.dec_seed / 3) as usize % (dplan.len() - 1);
+                let mut obs = SideObs::default();
+                let mut dec = AnyDec::new(params);
+                let mut held = None;
+                let fed = dplan[k - 1].end;
+                if decode_segment(&mut dec, &e[..fed], &dplan[..k], &mut obs, &owned2, false, &mut soft, &mut held)? {
+                    return Err(fail(&["C01", "C07"], "prefix-reject", format!("decoder rejected the first {} bytes of the encoder's output", fed)));
+                }
+                if let AnyDec::Prod(d) = dec {
+                    let iov = d.take_iovec();
+                    let tail = iov.flatten().map_err(|_| fail(&["C09"], "dec-pending", "decoder output has pending backrefs".into()))?;
+                    let mut got = std::mem::take(&mut obs.drained);
+                    got.extend_from_slice(&tail);
+                    if !input.starts_with(&got) {
+                        return Err(fail(&["C09"], "take_iovec-not-prefix", format!("after {} of {} encoded bytes, drained bytes plus Decoder::take_iovec() ({} bytes) are not a prefix of the message (first difference at {})", fed, e.len(), got.len(), first_diff(&got, input))));
+                    }
+                    partial_decodes += 1;
+                }
+            }
+        }
         Ok((enc_out.obs.max_lag, enc_out.obs.max_live_bytes.max(dec_out.obs.max_live_bytes)))
     });
 
@@ -1046,6 +1072,7 @@ fn round_trip(ctx: &mut Ctx, kind: &str, index: u64, case: &RoundTripCase<'_>) -
         count_plan_features(ctx, "dec", d);
     }
     ctx.ops += case.enc_plan.len() as u64 + dec_plan_used.as_ref().map(|d| d.len()).unwrap_or(0) as u64;
+    ctx.feature_n("codec.dec.abandoned_midway_take_iovec_is_prefix", partial_decodes);
 
     let mk_case = |dec: Option<&[PieceStep]>| case_json(kind, index, params, input, &case.enc_plan, dec);
     let had_soft = !soft.is_empty();
